@@ -2,7 +2,7 @@
 #include "prelude.h"
 #include "util.h"
 /* ut_asprintf is variadic (DFCC loses the write set of a variadic callee, see prelude.h on snprintf): its two call sites in
- * get_file() pass (tmpl, cert_dir) and (tmpl, cert_dir, ns); they reach the fixed-arity models of env/btls_env.h */
+ * get_file() pass (tmpl, cert_dir) and (tmpl, cert_dir, ns); they reach the fixed-arity models in contracts/btls.h */
 #define XV_ASPRINTF_PICK(_1, _2, _3, name, ...) name
 #define ut_asprintf(...) XV_ASPRINTF_PICK(__VA_ARGS__, xv_asprintf3, xv_asprintf2, xv_asprintf1)(__VA_ARGS__)
 char *xv_asprintf2(const char *fmt, const char *a);
@@ -10,5 +10,4 @@ char *xv_asprintf3(const char *fmt, const char *a, const char *b);
 #include "xcm_tp_btls.c"
 #include "env/base.h"
 #include "env/ssl_env.h"
-#include "env/btls_env.h"
 #include "contracts/btls.h"
